@@ -290,6 +290,21 @@ def run(ctx, chk):
             rs = eff._vroots(f.name, v0)
             if rs and all(r[0] == "fresh" for r in rs):
                 return True, "allocator result in the same function"
+            # the result of a side-effect-free accessor whose every return is one load along an access path from a
+            # parameter (`cbor_map_handle(item)` is `item->data`): classified as the location it reads
+            h = prog.funcs.get(v0.callee) if v0.callee else None
+            if h is not None and not h.is_extra and v0.callee in eff.summ and not eff.summ[v0.callee]["writes"] and \
+                    not eff.summ[v0.callee]["allocates"] and not eff.summ[v0.callee]["frees"]:
+                rets = set()
+                for i in h.all_insts():
+                    if i.op == "ret" and i.operands:
+                        r0 = strip_casts(i.operands[0])
+                        rets.add(apath(r0.operands[0]) if isinstance(r0, Inst) and r0.op == "load" else None)
+                if len(rets) == 1 and None not in rets:
+                    (hroot, hsteps), = rets
+                    if hroot[0] == "arg" and hroot[1] < len(v0.operands):
+                        aroot, asteps = see_through_accessors(f, *apath(v0.operands[hroot[1]]))
+                        return classify_location(f, aroot, tuple(asteps) + tuple(hsteps), depth)
             return False, "result of %s is not a fresh allocator block" % (v0.callee or "indirect call")
         if isinstance(v0, Arg):
             if not f.internal and not f.name.startswith("_cbor_"):
@@ -300,7 +315,12 @@ def run(ctx, chk):
             if not sites:
                 return True, "helper without callers"
             for g, c in sites:
-                ok, why = classify(g, c.operands[v0.i], depth + 1)
+                saved = cur_call_box[0]
+                cur_call_box[0] = c          # what is known about the item (its type) is what is known at the helper's call site
+                try:
+                    ok, why = classify(g, c.operands[v0.i], depth + 1)
+                finally:
+                    cur_call_box[0] = saved
                 if not ok:
                     return False, "via call at %s: %s" % (c.loc(), why)
             return True, "parameter of internal helper; all %d call sites pass an owned block" % len(sites)
@@ -390,6 +410,19 @@ def run(ctx, chk):
     chk.floor("C13.surface", "surface functions", n_surf, 30)
     S = eff.summ.get("verif_ctl_alloc_in_encoder")
     chk.ob("C13.control", "verif_ctl_alloc_in_encoder", bool(S and S["allocates"] and S["frees"]), "controls/ctl_alloc.c")
+    chk.rule("C13.release", "exactly once, not zero times: when the count reaches zero cbor_decref hands the item and, for every type whose "
+             "constructors allocate one, its data block / chunk table to the installed free on every path - also for a container "
+             "that is still empty (shared with C04.release)")
+    chk.rule("C13.release-exhaustive", "the release switch has an arm for every enumerator of cbor_type")
+    from props.c04 import check_release
+    import ownership as _Or13
+    check_release(chk, prog, eff, _Or13.PathCache(prog, eff), ctors, rules.item_offsets(prog), R="C13.release", RX="C13.release-exhaustive")
+    chk.rule("C13.covered", "a slot that receives a counted reference lies below the container's element count when the writing function "
+             "returns: the release routine walks exactly [0, count), so a reference parked beyond the count (a key waiting for its "
+             "value) is never handed to the installed free when the container is released early (shared with C04.covered)")
+    from props.c04 import check_covered
+    import ownership as _Ocv13
+    check_covered(chk, "C13.covered", prog, eff, _Ocv13.PathCache(prog, eff))
     chk.rule("C13.ref-contract", "the operations that take or hand out references keep the count equal to the number of holders (success: "
              "exactly one reference and one slot; failure: nothing; replace releases the displaced element once): a reference "
              "dropped without one taken lets cbor_decref hand a block to the installed free while a holder remains (shared with "
